@@ -13,7 +13,7 @@ import (
 // sequential one and the quiescent map must equal the reference content after
 // B: no write lost in the old table, no deleted entry resurrected by the copy,
 // Size exact, resizing flag clear.
-func VxH_Map_resizePar(opB, hint, tableLen, mode int) {
+func VxH_Map_resizePar(opB, hint, tableLen, mode, order int) {
 	m, c := vxArbMap(tableLen, 1, 1)
 	t := (*mapTable)(atomic.LoadPointer(&m.table))
 	kB := VxStr("kB")
@@ -27,10 +27,18 @@ func VxH_Map_resizePar(opB, hint, tableLen, mode int) {
 	}
 	var rB vxRes
 	VxReach("pre-state built")
-	VxPar(
-		func() { m.resize(t, mapResizeHint(hint)) },
-		func() { rB = vxMapDo(m, opB, kB, nvB, delB) },
-	)
+	// order: which thread moves first in each round (2 rounds: resize,op,resize,op or op,resize,op,resize)
+	if order == 0 {
+		VxPar(
+			func() { m.resize(t, mapResizeHint(hint)) },
+			func() { rB = vxMapDo(m, opB, kB, nvB, delB) },
+		)
+	} else {
+		VxPar(
+			func() { rB = vxMapDo(m, opB, kB, nvB, delB) },
+			func() { m.resize(t, mapResizeHint(hint)) },
+		)
+	}
 	VxReach("both threads finished")
 	VxObserve("B.ok", rB.ok)
 	c1 := *c
@@ -49,7 +57,7 @@ func VxH_Map_resizePar(opB, hint, tableLen, mode int) {
 }
 
 // VxH_MapOf_resizePar: MapOf[int,int] twin of VxH_Map_resizePar.
-func VxH_MapOf_resizePar(opB, hint, tableLen, mode, slots int) {
+func VxH_MapOf_resizePar(opB, hint, tableLen, mode, slots, order int) {
 	m, c := vxArbMapOf[int, int](tableLen, 1, 1, slots, slots, VxIntHasher, vxIntKey, vxIntVal)
 	t := (*mapOfTable[int, int])(atomic.LoadPointer(&m.table))
 	kB := VxInt("kB")
@@ -63,10 +71,17 @@ func VxH_MapOf_resizePar(opB, hint, tableLen, mode, slots int) {
 	}
 	var rB vxResOf
 	VxReach("pre-state built")
-	VxPar(
-		func() { m.resize(t, mapResizeHint(hint)) },
-		func() { rB = vxMapOfDo(m, opB, kB, nvB, delB) },
-	)
+	if order == 0 {
+		VxPar(
+			func() { m.resize(t, mapResizeHint(hint)) },
+			func() { rB = vxMapOfDo(m, opB, kB, nvB, delB) },
+		)
+	} else {
+		VxPar(
+			func() { rB = vxMapOfDo(m, opB, kB, nvB, delB) },
+			func() { m.resize(t, mapResizeHint(hint)) },
+		)
+	}
 	VxReach("both threads finished")
 	VxObserve("B.ok", rB.ok)
 	c1 := *c
